@@ -1,3 +1,677 @@
-import TenpyModel.C02.Struct
+import TenpyModel.C02.ColLemmas
+/-!
+# C02 — `WF` (= `Array.test_sanity()` + truthful `_qdata_sorted` + pairwise distinct rows) is preserved.
+Part 1: constructors, copies, row-level in-place methods, transposition, conj, take_slice, add_trivial_leg,
+element assignment. Theorems at root namespace `C02_*`.
+-/
 open TenpyModel.Core TenpyModel.C02
-theorem C02_placeholder_Props : True := trivial
+
+namespace TenpyModel.C02
+
+theorem sublist_zipfilter {α} (l : List α) (k : List Bool) : ((l.zip k).filter (·.2)).map (·.1) |>.Sublist l := by
+  induction l generalizing k with
+  | nil => simp
+  | cons x xs ih =>
+    cases k with
+    | nil => simp
+    | cons b bs =>
+      simp only [List.zip_cons_cons, List.filter_cons]
+      cases b
+      · simpa using (ih bs).trans (List.sublist_cons_self x xs)
+      · simpa using (ih bs)
+
+/-- same legs and qtotal, rows taken from the rows of `a` -/
+theorem WFP_of_rows_subset {a b : ArrS} (h : WFP a) (hl : b.legs = a.legs) (hq : b.qtotal = a.qtotal)
+    (hsub : ∀ r ∈ b.qdata, r ∈ a.qdata) (hn : b.qdata.Pairwise (· ≠ ·))
+    (hs : b.sorted = true → b.qdata.Pairwise (fun x y => rowLE x y = true)) : WFP b := by
+  have hm : b.mods = a.mods := by unfold ArrS.mods; rw [hl]
+  exact ⟨hl ▸ h.rank_pos, hm ▸ h.mods_pos, by rw [hl, hm]; exact h.legs_ok, by rw [hm, hq]; exact h.qtotal_valid,
+    by intro r hr; rw [hl, hm, hq]; exact h.rows_ok r (hsub r hr), hn, hs⟩
+
+theorem rowInRange_iff (legs : List LegS) (r : List Nat) :
+    rowInRange legs r = true ↔
+      r.length = legs.length ∧ ∀ i (hi : i < legs.length), r.getD i 0 < (legs[i]).blockNumber := by
+  unfold rowInRange
+  simp only [Bool.and_eq_true, beq_iff_eq, List.all_eq_true]
+  constructor
+  · rintro ⟨hl, h⟩
+    refine ⟨hl, ?_⟩
+    induction legs generalizing r with
+    | nil => intro i hi; simp at hi
+    | cons l legs ih =>
+      cases r with
+      | nil => simp at hl
+      | cons q r =>
+        intro i hi
+        simp only [List.zipWith_cons_cons, List.mem_cons, id_eq, forall_eq_or_imp, decide_eq_true_eq] at h
+        cases i with
+        | zero => simpa using h.1
+        | succ i => simpa using ih r (by simpa using hl) h.2 i (by simpa using hi)
+  · rintro ⟨hl, h⟩
+    refine ⟨hl, ?_⟩
+    induction legs generalizing r with
+    | nil => simp
+    | cons l legs ih =>
+      cases r with
+      | nil => simp at hl
+      | cons q r =>
+        simp only [List.zipWith_cons_cons, List.mem_cons, id_eq, forall_eq_or_imp, decide_eq_true_eq]
+        refine ⟨?_, ih r (by simpa using hl) ?_⟩
+        · have := h 0 (by simp)
+          simpa using this
+        · intro i hi
+          have := h (i + 1) (by simpa using hi)
+          simpa using this
+
+theorem WFP.row_length {a : ArrS} (h : WFP a) {r : List Nat} (hr : r ∈ a.qdata) : r.length = a.legs.length :=
+  ((rowInRange_iff _ _).mp (h.rows_ok r hr).1).1
+
+end TenpyModel.C02
+
+/-! ## copies and row-level in-place methods -/
+
+theorem C02_WF_copy (a : ArrS) (h : a.WF) : a.copy.WF := h
+
+theorem C02_WF_zerosLike (a : ArrS) (h : a.WF) : a.zerosLike.WF := by
+  rw [WF_iff] at *
+  exact WFP_of_rows_subset h rfl rfl (by simp [ArrS.zerosLike]) (by simp [ArrS.zerosLike]) (by simp [ArrS.zerosLike])
+
+/-- `iscale_prefactor`: a zero prefactor drops all blocks and may claim sortedness of the empty list -/
+theorem C02_WF_iscalePrefactor (a : ArrS) (z : Bool) (h : a.WF) : (a.iscalePrefactor z).WF := by
+  unfold ArrS.iscalePrefactor
+  split
+  · exact C02_WF_zerosLike a h
+  · exact h
+
+/-- `ipurge_zeros` keeps a sub-list of the rows in their order: the flag may be kept -/
+theorem C02_WF_ipurgeZeros (a : ArrS) (keep : List Bool) (h : a.WF) : (a.ipurgeZeros keep).WF := by
+  unfold ArrS.ipurgeZeros
+  split
+  · exact h
+  · rw [WF_iff] at *
+    have hsub := sublist_zipfilter a.qdata keep
+    exact WFP_of_rows_subset h rfl rfl (fun r hr => hsub.subset hr) (h.nodup.sublist hsub)
+      (fun hs => (h.sorted_ok hs).sublist hsub)
+
+/-- `isort_qdata`: the early exit trusts the flag; otherwise the rows are lexsorted and the flag is set -/
+theorem C02_WF_isortQdata (a : ArrS) (h : a.WF) : a.isortQdata.WF := by
+  unfold ArrS.isortQdata
+  split
+  · exact h
+  · rw [WF_iff] at *
+    split
+    · rename_i hlen
+      refine WFP_of_rows_subset h rfl rfl (fun r hr => hr) h.nodup (fun _ => ?_)
+      match hq : a.qdata, hlen with
+      | [], _ => exact List.Pairwise.nil
+      | [x], _ => exact List.pairwise_singleton _ _
+      | _ :: _ :: _, hlen => simp at hlen; omega
+    · have hp := sortRows_perm a.qdata
+      refine WFP_of_rows_subset h rfl rfl (fun r hr => hp.mem_iff.mp hr) ?_ (fun _ => ?_)
+      · exact (hp.pairwise_iff (fun hab => Ne.symm hab)).mpr h.nodup
+      · exact sortRows_sorted a.qdata a.legs.length (fun r hr => h.row_length hr)
+
+/-- non-vacuity witness used by several examples: a U(1) matrix with two stored blocks in the wrong order -/
+def TenpyModel.C02.exA : ArrS :=
+  { legs := [.plain (Leg.fromQflat [1] [[0], [1]] 1), .plain (Leg.fromQflat [1] [[0], [1]] (-1))]
+    qtotal := [0]
+    qdata := [[1, 1], [0, 0]]
+    sorted := false }
+
+example : exA.WF ∧ exA.isortQdata.qdata = [[0, 0], [1, 1]] ∧ exA.isortQdata.sorted = true := by decide
+
+/-! ## the charge rule: helpers -/
+namespace TenpyModel.C02
+
+/-- per-column charges of a row -/
+def chList (legs : List LegS) (r : List Nat) : List Charge :=
+  List.zipWith (fun (l : LegS) q => l.leg.getCharge q) legs r
+
+theorem rawCharge_eq (qn : Nat) (legs : List LegS) (r : List Nat) : rawCharge qn legs r = csum qn (chList legs r) := rfl
+
+theorem LegS.ok_sane {l : LegS} (h : l.ok = true) : l.leg.sane = true := by
+  cases l with
+  | plain l => exact h
+  | pipe p => simp only [LegS.ok, Bool.and_eq_true] at h; exact h.1
+
+theorem Leg.sane_charges {l : Leg} (h : l.sane = true) : ∀ c ∈ l.charges, checkValid l.mods c = true := by
+  unfold Leg.sane at h
+  simp only [Bool.and_eq_true, List.all_eq_true] at h
+  exact h.1.1.1.2
+
+theorem Leg.getCharge_length {l : Leg} (h : l.sane = true) {q : Nat} (hq : q < l.blockNumber) :
+    (l.getCharge q).length = l.mods.length := by
+  unfold Leg.getCharge
+  rw [cscale_length]
+  unfold Leg.blockNumber at hq
+  have : l.charges.getD q [] = l.charges[q] := by simp [List.getD, hq]
+  rw [this]
+  exact checkValid_length (Leg.sane_charges h _ (List.getElem_mem hq))
+
+theorem chList_lengths {legs : List LegS} {M : List Nat} (hok : ∀ l ∈ legs, l.ok = true ∧ l.leg.mods = M)
+    {r : List Nat} (hr : rowInRange legs r = true) : ∀ c ∈ chList legs r, c.length = M.length := by
+  rw [rowInRange_iff] at hr
+  obtain ⟨hl, hlt⟩ := hr
+  intro c hc
+  unfold chList at hc
+  rw [List.mem_iff_getElem] at hc
+  obtain ⟨i, hi, rfl⟩ := hc
+  simp only [List.length_zipWith] at hi
+  have hi1 : i < legs.length := by omega
+  have hi2 : i < r.length := by omega
+  simp only [List.getElem_zipWith]
+  have hlm := hok legs[i] (List.getElem_mem hi1)
+  rw [← hlm.2]
+  apply Leg.getCharge_length (LegS.ok_sane hlm.1)
+  have := hlt i hi1
+  simpa [List.getD, hi2, LegS.blockNumber] using this
+
+theorem modsOf_eq_of_mem {legs : List LegS} {M : List Nat} (hne : legs ≠ []) (h : ∀ l ∈ legs, l.leg.mods = M) :
+    ArrS.modsOf legs = M := by
+  cases legs with
+  | nil => exact absurd rfl hne
+  | cons l ls => exact h l (by simp)
+
+end TenpyModel.C02
+namespace TenpyModel.C02
+
+theorem Leg.sane_conj {l : Leg} (h : l.sane = true) : l.conj.sane = true := by
+  unfold Leg.sane at *
+  simp only [Leg.conj, Leg.blockNumber, Leg.isSorted, Leg.isBunched, Leg.qnumber, Bool.and_eq_true, Bool.or_eq_true,
+    beq_iff_eq] at *
+  refine ⟨⟨⟨⟨h.1.1.1.1, h.1.1.1.2⟩, ?_⟩, h.1.2⟩, h.2⟩
+  rcases h.1.1.2 with h1 | h1
+  · right; omega
+  · left; omega
+
+theorem getCharge_conj (l : Leg) (q : Nat) : l.conj.getCharge q = cneg (l.getCharge q) := by
+  simp [Leg.getCharge, Leg.conj, cscale, cneg, Int.neg_mul]
+
+theorem LegS.conj_leg (l : LegS) : l.conj.leg = l.leg.conj := by cases l <;> rfl
+
+theorem chList_conj (legs : List LegS) (r : List Nat) : chList (legs.map LegS.conj) r = (chList legs r).map cneg := by
+  unfold chList
+  induction legs generalizing r with
+  | nil => simp
+  | cons l legs ih =>
+    cases r with
+    | nil => simp
+    | cons q r => simp [ih, LegS.conj_leg, getCharge_conj]
+
+theorem rowInRange_conj (legs : List LegS) (r : List Nat) : rowInRange (legs.map LegS.conj) r = rowInRange legs r := by
+  unfold rowInRange
+  congr 1
+  · simp
+  · congr 1
+    induction legs generalizing r with
+    | nil => simp
+    | cons l legs ih =>
+      cases r with
+      | nil => simp
+      | cons q r =>
+        simp only [List.map_cons, List.zipWith_cons_cons, ih]
+        congr 2
+        cases l <;> rfl
+
+/-- charge rule under conjugation of all legs -/
+theorem blockCharge_conj {legs : List LegS} {M : List Nat} (hok : ∀ l ∈ legs, l.ok = true ∧ l.leg.mods = M)
+    {r : List Nat} (hr : rowInRange legs r = true) :
+    blockCharge M (legs.map LegS.conj) r = makeValid M (cneg (blockCharge M legs r)) := by
+  unfold blockCharge
+  rw [rawCharge_eq, rawCharge_eq, chList_conj, csum_map_cneg _ _ (chList_lengths hok hr), makeValid_neg]
+
+theorem makeValid_congr_neg {M : List Nat} {x y : Charge} (h : makeValid M x = makeValid M y) :
+    makeValid M (cneg x) = makeValid M (cneg y) := by
+  rw [← makeValid_neg M x, h, makeValid_neg]
+
+theorem Pipe.ok_conj {p : Pipe} (hs : p.leg.sane = true) (h : Pipe.ok p = true) : Pipe.ok p.conj = true := by
+  unfold Pipe.ok at *
+  simp only [Bool.and_eq_true, List.all_eq_true, Bool.not_eq_true', beq_iff_eq, decide_eq_true_eq] at h
+  obtain ⟨⟨⟨⟨⟨⟨h1, h2⟩, h3⟩, h4⟩, h5⟩, h6⟩, h7⟩ := h
+  have hlegs : (p.conj.legs.map LegS.plain) = (p.legs.map LegS.plain).map LegS.conj := by
+    simp [Pipe.conj, List.map_map, Function.comp_def, LegS.conj]
+  have hok : ∀ l ∈ p.legs.map LegS.plain, l.ok = true ∧ l.leg.mods = p.leg.mods := by
+    intro l hl
+    obtain ⟨l0, hl0, rfl⟩ := List.mem_map.mp hl
+    exact ⟨(h2 l0 hl0).1, (h2 l0 hl0).2⟩
+  simp only [Bool.and_eq_true, List.all_eq_true, Bool.not_eq_true', beq_iff_eq, decide_eq_true_eq]
+  refine ⟨⟨⟨⟨⟨⟨?_, ?_⟩, ?_⟩, h4⟩, h5⟩, h6⟩, h7⟩
+  · simpa [Pipe.conj] using h1
+  · intro l hl
+    simp only [Pipe.conj, List.mem_map] at hl
+    obtain ⟨l0, hl0, rfl⟩ := hl
+    exact ⟨Leg.sane_conj (h2 l0 hl0).1, (h2 l0 hl0).2⟩
+  · intro row hrow
+    have hr := h3 row hrow
+    unfold pipeRowOk at hr ⊢
+    simp only [Bool.and_eq_true, beq_iff_eq, decide_eq_true_eq] at hr ⊢
+    obtain ⟨⟨⟨hr1, hr2⟩, hr3⟩, hr4⟩ := hr
+    refine ⟨⟨⟨by simpa [Pipe.conj] using hr1, hr2⟩, ?_⟩, ?_⟩
+    · rw [hlegs, rowInRange_conj]; exact hr3
+    · rw [hlegs]
+      show makeValid p.leg.mods (p.leg.conj.getCharge _) = blockCharge p.leg.mods _ _
+      rw [blockCharge_conj hok hr3, getCharge_conj, ← hr4, makeValid_neg]
+
+end TenpyModel.C02
+
+theorem C02_WF_conj (a : ArrS) (h : a.WF) : a.conj.WF := by
+  rw [WF_iff] at *
+  have hmods : ∀ l ∈ a.legs.map LegS.conj, l.leg.mods = a.mods := by
+    intro l hl
+    obtain ⟨l0, hl0, rfl⟩ := List.mem_map.mp hl
+    rw [LegS.conj_leg]; exact (h.legs_ok l0 hl0).2
+  have hm : a.conj.mods = a.mods :=
+    modsOf_eq_of_mem (by simpa [ArrS.conj] using h.rank_pos) hmods
+  have hqlen : a.qtotal.length = a.mods.length := checkValid_length h.qtotal_valid
+  refine ⟨by simpa [ArrS.conj] using h.rank_pos, hm ▸ h.mods_pos, ?_, ?_, ?_, h.nodup, h.sorted_ok⟩
+  · intro l hl
+    rw [hm]
+    refine ⟨?_, hmods l hl⟩
+    obtain ⟨l0, hl0, rfl⟩ := List.mem_map.mp hl
+    have h0 := (h.legs_ok l0 hl0).1
+    cases l0 with
+    | plain l => exact Leg.sane_conj h0
+    | pipe p =>
+      simp only [LegS.ok, Bool.and_eq_true] at h0
+      simp only [LegS.conj, LegS.ok, Bool.and_eq_true]
+      exact ⟨Leg.sane_conj h0.1, Pipe.ok_conj h0.1 h0.2⟩
+  · rw [hm]
+    exact checkValid_makeValid _ h.mods_pos _ (by simp [cneg_length, hqlen])
+  · intro r hr
+    have h0 := h.rows_ok r hr
+    rw [hm]
+    refine ⟨by simpa [ArrS.conj, rowInRange_conj] using h0.1, ?_⟩
+    show blockCharge a.mods (a.legs.map LegS.conj) r = makeValid a.mods (cneg a.qtotal)
+    rw [blockCharge_conj h.legs_ok h0.1, h0.2]
+
+/-- documented qtotal of `conj`: the negative total charge -/
+theorem C02_qtotal_conj (a : ArrS) : a.conj.qtotal = makeValid a.mods (cneg a.qtotal) := rfl
+
+example : exA.conj.WF := by decide
+namespace TenpyModel.C02
+
+theorem zipWith_insertAt {α β γ} (f : α → β → γ) (k : Nat) (x : α) (y : β) (l : List α) (r : List β)
+    (h : l.length = r.length) :
+    List.zipWith f (insertAt k x l) (insertAt k y r) = insertAt k (f x y) (List.zipWith f l r) := by
+  unfold insertAt
+  rw [List.zipWith_append (by simp [h])]
+  simp [List.take_zipWith, List.drop_zipWith]
+
+theorem insertAt_length {α} (k : Nat) (x : α) (l : List α) : (insertAt k x l).length = l.length + 1 := by
+  unfold insertAt
+  simp only [List.length_append, List.length_take, List.length_cons, List.length_drop]
+  omega
+
+theorem csum_insertAt_zero (n k : Nat) (cs : List Charge) (h : ∀ c ∈ cs, c.length = n) :
+    csum n (insertAt k (czero n) cs) = csum n cs := by
+  unfold insertAt
+  have h1 : ∀ c ∈ cs.take k, c.length = n := fun c hc => h c (List.mem_of_mem_take hc)
+  have h2 : ∀ c ∈ cs.drop k, c.length = n := fun c hc => h c (List.mem_of_mem_drop hc)
+  rw [csum_append n _ _ h1 (by intro c hc; rcases List.mem_cons.mp hc with rfl | hc; exact czero_length n; exact h2 c hc),
+    csum_cons n _ _ (czero_length n) h2, cadd_czero_left n _ (csum_length n _ h2), ← csum_append n _ _ h1 h2,
+    List.take_append_drop]
+
+theorem cscale_czero (s : Int) (n : Nat) : cscale s (czero n) = czero n := by simp [cscale, czero]
+
+/-- a leg built by `from_qind` carries truthful flags by construction -/
+theorem Leg.sane_fromQind (mods slices charges) (qconj : Int) (h1 : slices.length = charges.length + 1)
+    (h2 : slices.head? = some 0) (h3 : ∀ c ∈ charges, checkValid mods c = true) (h4 : qconj = 1 ∨ qconj = -1) :
+    (Leg.fromQind mods slices charges qconj).sane = true := by
+  unfold Leg.sane Leg.fromQind Leg.mk'
+  simp only [Leg.blockNumber, Leg.isSorted, Leg.isBunched, Leg.qnumber, Bool.and_eq_true, beq_iff_eq, List.all_eq_true,
+    Bool.or_eq_true, Bool.not_eq_true']
+  refine ⟨⟨⟨⟨⟨h1, h2⟩, h3⟩, ?_⟩, ?_⟩, ?_⟩
+  · rcases h4 with h | h <;> simp [h]
+  · cases h : (Leg.isSortedRows mods.length charges) <;> simp [h]
+  · cases h : ((findRowDifferences mods.length charges).length == charges.length + 1) <;> simp_all
+
+theorem trivialLeg_sane (mods : List Nat) (hm : ∀ m ∈ mods, 1 ≤ m) (qconj : Int) (hq : qconj = 1 ∨ qconj = -1) :
+    (Leg.fromQflat mods [czero mods.length] qconj).sane = true := by
+  unfold Leg.fromQflat
+  apply Leg.sane_fromQind
+  · simp
+  · simp [List.range_succ]
+  · intro c hc
+    simp only [List.mem_singleton] at hc
+    subst hc
+    unfold checkValid czero
+    simp only [List.length_replicate, beq_self_eq_true, Bool.true_and, List.all_eq_true]
+    intro b hb
+    obtain ⟨i, hi, rfl⟩ := List.mem_iff_getElem.mp hb
+    simp only [List.length_zipWith, List.length_replicate, Nat.min_self] at hi
+    simp only [List.getElem_zipWith, List.getElem_replicate, id_eq, cv1, Bool.or_eq_true, beq_iff_eq, Bool.and_eq_true,
+      decide_eq_true_eq]
+    have := hm mods[i] (List.getElem_mem hi)
+    omega
+  · exact hq
+
+theorem modsOf_insertAt (k : Nat) (x : LegS) (legs : List LegS) (hne : legs ≠ [])
+    (hx : x.leg.mods = ArrS.modsOf legs) : ArrS.modsOf (insertAt k x legs) = ArrS.modsOf legs := by
+  cases legs with
+  | nil => exact absurd rfl hne
+  | cons l ls =>
+    cases k with
+    | zero => simpa [insertAt, ArrS.modsOf] using hx
+    | succ k => simp [insertAt, ArrS.modsOf]
+
+theorem mem_insertAt {α} {k : Nat} {x y : α} {l : List α} (h : y ∈ insertAt k x l) : y = x ∨ y ∈ l := by
+  unfold insertAt at h
+  rcases List.mem_append.mp h with h | h
+  · exact Or.inr (List.mem_of_mem_take h)
+  · rcases List.mem_cons.mp h with h | h
+    · exact Or.inl h
+    · exact Or.inr (List.mem_of_mem_drop h)
+
+end TenpyModel.C02
+
+theorem TenpyModel.C02.WFP_insertTrivial (a : ArrS) (pos : Nat) (qconj : Int) (hq : qconj = 1 ∨ qconj = -1) (h : WFP a) :
+    WFP { legs := insertAt pos (.plain (Leg.fromQflat a.mods [czero a.mods.length] qconj)) a.legs, qtotal := a.qtotal,
+          qdata := a.qdata.map (insertAt pos 0), sorted := a.sorted } := by
+  generalize hleg0 : Leg.fromQflat a.mods [czero a.mods.length] qconj = leg0
+  have hsane0 : leg0.sane = true := by rw [← hleg0]; exact trivialLeg_sane a.mods h.mods_pos qconj hq
+  have hmods0 : leg0.mods = a.mods := by rw [← hleg0]; rfl
+  have hbn0 : leg0.blockNumber = 1 := by rw [← hleg0]; rfl
+  have hgc0 : leg0.getCharge 0 = czero a.mods.length := by
+    rw [← hleg0]; simp [Leg.getCharge, Leg.fromQflat, Leg.fromQind, Leg.mk', cscale_czero]
+  have hm : ArrS.mods { a with legs := insertAt pos (.plain leg0) a.legs, qdata := a.qdata.map (insertAt pos 0) } = a.mods :=
+    modsOf_insertAt pos _ a.legs h.rank_pos hmods0
+  have hok' : ∀ l ∈ insertAt pos (LegS.plain leg0) a.legs, l.ok = true ∧ l.leg.mods = a.mods := by
+    intro l hl
+    rcases mem_insertAt hl with rfl | hl
+    · exact ⟨hsane0, hmods0⟩
+    · exact h.legs_ok l hl
+  refine ⟨?_, hm ▸ h.mods_pos, by rw [hm]; exact hok', by rw [hm]; exact h.qtotal_valid, ?_, ?_, ?_⟩
+  · intro e
+    have := congrArg List.length e
+    simp [insertAt_length] at this
+  · intro r hr
+    simp only [List.mem_map] at hr
+    obtain ⟨r0, hr0, rfl⟩ := hr
+    have h0 := h.rows_ok r0 hr0
+    have hlen := h.row_length hr0
+    rw [hm]
+    constructor
+    · unfold rowInRange at *
+      simp only [Bool.and_eq_true, beq_iff_eq, List.all_eq_true] at h0 ⊢
+      refine ⟨by simp [insertAt_length, hlen], ?_⟩
+      rw [zipWith_insertAt _ _ _ _ _ _ hlen.symm]
+      intro b hb
+      rcases mem_insertAt hb with rfl | hb
+      · simp [LegS.blockNumber, LegS.leg, hbn0]
+      · exact h0.1.2 b hb
+    · show blockCharge a.mods (insertAt pos (LegS.plain leg0) a.legs) (insertAt pos 0 r0) = a.qtotal
+      rw [← h0.2]
+      unfold blockCharge
+      rw [rawCharge_eq, rawCharge_eq]
+      unfold chList
+      rw [zipWith_insertAt _ _ _ _ _ _ hlen.symm]
+      show makeValid a.mods (csum a.mods.length (insertAt pos (leg0.getCharge 0) _)) = _
+      rw [hgc0]
+      have := csum_insertAt_zero a.mods.length pos (chList a.legs r0) (chList_lengths h.legs_ok h0.1)
+      unfold chList at this
+      rw [this]
+  · show (a.qdata.map (insertAt pos 0)).Pairwise (· ≠ ·)
+    rw [List.pairwise_map]
+    have := h.nodup
+    rw [List.pairwise_iff_forall_sublist] at this ⊢
+    intro x y hxy e
+    have hx := h.row_length (hxy.subset (by simp : x ∈ [x, y]))
+    have hy := h.row_length (hxy.subset (by simp : y ∈ [x, y]))
+    exact this hxy (insertAt_inj pos 0 x y (by rw [hx, hy]) e)
+  · intro hs
+    show (a.qdata.map (insertAt pos 0)).Pairwise _
+    rw [List.pairwise_map]
+    have := h.sorted_ok hs
+    rw [List.pairwise_iff_forall_sublist] at this ⊢
+    intro x y hxy
+    have hx := h.row_length (hxy.subset (by simp : x ∈ [x, y]))
+    have hy := h.row_length (hxy.subset (by simp : y ∈ [x, y]))
+    have := this hxy
+    unfold rowLE at *
+    rw [rowLT_insertAt pos 0 y x (by rw [hx, hy])]
+    exact this
+
+/-- `add_trivial_leg` keeps `_qdata_sorted`: inserting the same entry at the same column of every row does not
+change the order of the rows -/
+theorem C02_WF_addTrivialLeg (a : ArrS) (axis qconj : Int) (hq : qconj = 1 ∨ qconj = -1) (h : a.WF) :
+    (a.addTrivialLeg axis qconj).WF := by
+  rw [WF_iff] at *
+  exact WFP_insertTrivial a _ qconj hq h
+
+example : (exA.isortQdata.addTrivialLeg 1 (-1)).WF ∧ (exA.isortQdata.addTrivialLeg 1 (-1)).sorted = true := by decide
+namespace TenpyModel.C02
+
+theorem perm_range_of_nodup (axes : List Nat) (n : Nat) (hn : axes.Nodup) (hl : axes.length = n)
+    (hlt : ∀ i ∈ axes, i < n) : axes.Perm (List.range n) := by
+  rw [List.perm_ext_iff_of_nodup hn List.nodup_range]
+  intro i
+  constructor
+  · intro hi; exact List.mem_range.mpr (hlt i hi)
+  · intro hi
+    have hi' := List.mem_range.mp hi
+    apply Classical.byContradiction
+    intro hni
+    have hsub : axes ⊆ (List.range n).erase i := by
+      intro x hx
+      have hxi : x ≠ i := fun e => hni (e ▸ hx)
+      exact (List.mem_erase_of_ne hxi).mpr (List.mem_range.mpr (hlt x hx))
+    have := hn.length_le_of_subset hsub
+    rw [List.length_erase] at this
+    simp [hi] at this
+    omega
+
+theorem map_getD_range {α} (l : List α) (d : α) : (List.range l.length).map (fun i => l.getD i d) = l := by
+  apply List.ext_getElem
+  · simp
+  · intro i h1 h2
+    simp at h1
+    simp [List.getD, h1]
+
+/-- selecting all columns in a permuted order: legs and row together -/
+theorem chList_permute (legs : List LegS) (r : List Nat) (axes : List Nat) (hl : r.length = legs.length)
+    (hlt : ∀ i ∈ axes, i < legs.length) :
+    chList (axes.filterMap (fun i => legs[i]?)) (selectCols axes r 0) = axes.map (fun i => (chList legs r).getD i []) := by
+  unfold selectCols
+  induction axes with
+  | nil => simp [chList]
+  | cons i axes ih =>
+    have hi : i < legs.length := hlt i (by simp)
+    have hir : i < r.length := by omega
+    have ih' := ih (fun j hj => hlt j (by simp [hj]))
+    simp only [List.filterMap_cons, List.getElem?_eq_getElem hi, List.map_cons]
+    unfold chList at ih' ⊢
+    simp only [List.zipWith_cons_cons, ih']
+    congr 1
+    have hz : i < (List.zipWith (fun (l : LegS) q => l.leg.getCharge q) legs r).length := by
+      rw [List.length_zipWith]; omega
+    simp only [List.getD, List.getElem?_eq_getElem hz, List.getElem?_eq_getElem hir, Option.getD_some,
+      List.getElem_zipWith]
+
+theorem mapM_some_mem {α β} {f : α → Option β} {l : List α} {l' : List β} (h : l.mapM f = some l') :
+    ∀ y ∈ l', ∃ x ∈ l, f x = some y := by
+  induction l generalizing l' with
+  | nil => simp at h; subst h; simp
+  | cons a l ih =>
+    rw [List.mapM_cons] at h
+    cases hfa : f a with
+    | none => simp [hfa] at h
+    | some b =>
+      cases hl : l.mapM f with
+      | none => simp [hfa, hl] at h
+      | some bs =>
+        simp [hfa, hl] at h
+        subst h
+        intro y hy
+        rcases List.mem_cons.mp hy with rfl | hy
+        · exact ⟨a, by simp, hfa⟩
+        · obtain ⟨x, hx, hfx⟩ := ih hl y hy
+          exact ⟨x, by simp [hx], hfx⟩
+
+theorem legIndex_lt {a : ArrS} {i : Int} {k : Nat} (h : a.legIndex i = some k) : k < a.rank := by
+  unfold ArrS.legIndex at h
+  generalize (if i < 0 then i + (a.rank : Int) else i) = j at h
+  simp only at h
+  by_cases h1 : j < 0
+  · simp [h1] at h
+  · by_cases h2 : j ≥ (a.rank : Int)
+    · simp [h1, h2] at h
+    · simp [h1, h2] at h
+      omega
+
+theorem blockCharge_permute {legs : List LegS} {M : List Nat} (hok : ∀ l ∈ legs, l.ok = true ∧ l.leg.mods = M)
+    {r : List Nat} (hr : rowInRange legs r = true) (axes : List Nat) (hp : axes.Perm (List.range legs.length)) :
+    blockCharge M (axes.filterMap (fun i => legs[i]?)) (selectCols axes r 0) = blockCharge M legs r := by
+  have hl := ((rowInRange_iff _ _).mp hr).1
+  have hlt : ∀ i ∈ axes, i < legs.length := fun i hi => List.mem_range.mp (hp.mem_iff.mp hi)
+  unfold blockCharge
+  rw [rawCharge_eq, rawCharge_eq, chList_permute legs r axes hl hlt]
+  have hlen := chList_lengths hok hr
+  have hcl : (chList legs r).length = legs.length := by simp [chList, hl]
+  have hp' : (axes.map (fun i => (chList legs r).getD i [])).Perm (chList legs r) := by
+    have := hp.map (fun i => (chList legs r).getD i [])
+    rw [← hcl, map_getD_range] at this
+    exact this
+  rw [csum_perm _ hp' (fun c hc => hlen c (hp'.mem_iff.mp hc))]
+
+theorem rowInRange_permute {legs : List LegS} {r : List Nat} (hr : rowInRange legs r = true) (axes : List Nat)
+    (hlt : ∀ i ∈ axes, i < legs.length) :
+    rowInRange (axes.filterMap (fun i => legs[i]?)) (selectCols axes r 0) = true := by
+  rw [rowInRange_iff] at hr ⊢
+  obtain ⟨hl, hb⟩ := hr
+  have hfm : axes.filterMap (fun i => legs[i]?) = axes.attach.map (fun i => legs[i.1]'(hlt i.1 i.2)) := by
+    induction axes with
+    | nil => rfl
+    | cons i axes ih =>
+      have hi : i < legs.length := hlt i (by simp)
+      simp only [List.filterMap_cons, List.getElem?_eq_getElem hi, List.attach_cons, List.map_cons, List.map_map]
+      congr 1
+      rw [ih (fun j hj => hlt j (by simp [hj]))]
+      simp [Function.comp_def]
+  refine ⟨by simp [selectCols, hfm], ?_⟩
+  intro k hk
+  simp only [hfm, List.length_map, List.length_attach] at hk
+  simp only [hfm, List.getElem_map, List.getElem_attach, selectCols, List.getD, List.getElem?_map, hk,
+    List.getElem?_eq_getElem, Option.map_some, Option.getD_some]
+  have := hb axes[k] (hlt _ (List.getElem_mem hk))
+  simpa [List.getD] using this
+
+theorem selectCols_inj {axes : List Nat} {n : Nat} (hp : axes.Perm (List.range n)) {x y : List Nat}
+    (hx : x.length = n) (hy : y.length = n) (h : selectCols axes x 0 = selectCols axes y 0) : x = y := by
+  apply List.ext_getElem (by rw [hx, hy])
+  intro i h1 h2
+  have hi : i ∈ axes := hp.mem_iff.mpr (List.mem_range.mpr (hx ▸ h1))
+  unfold selectCols at h
+  have := List.map_inj_left.mp h i hi
+  simpa [List.getD, h1, h2] using this
+
+theorem WFP_permuteAxes {a : ArrS} (h : WFP a) (axes : List Nat) (hp : axes.Perm (List.range a.rank)) :
+    WFP (a.permuteAxes axes) := by
+  have hlt : ∀ i ∈ axes, i < a.legs.length := fun i hi => List.mem_range.mp (hp.mem_iff.mp hi)
+  have hmem : ∀ l ∈ axes.filterMap (fun i => a.legs[i]?), l ∈ a.legs := by
+    intro l hl
+    obtain ⟨i, _, hi⟩ := List.mem_filterMap.mp hl
+    exact List.mem_of_getElem? hi
+  have hne : axes.filterMap (fun i => a.legs[i]?) ≠ [] := by
+    have hpos : 0 < a.legs.length := List.length_pos_iff.mpr h.rank_pos
+    have h0 : 0 ∈ axes := hp.mem_iff.mpr (List.mem_range.mpr hpos)
+    intro e
+    have : a.legs[0] ∈ axes.filterMap (fun i => a.legs[i]?) :=
+      List.mem_filterMap.mpr ⟨0, h0, List.getElem?_eq_getElem hpos⟩
+    rw [e] at this; cases this
+  have hm : (a.permuteAxes axes).mods = a.mods :=
+    modsOf_eq_of_mem hne (fun l hl => (h.legs_ok l (hmem l hl)).2)
+  refine ⟨hne, hm ▸ h.mods_pos, ?_, by rw [hm]; exact h.qtotal_valid, ?_, ?_, by intro hs; cases hs⟩
+  · intro l hl; rw [hm]; exact h.legs_ok l (hmem l hl)
+  · intro r hr
+    simp only [ArrS.permuteAxes, List.mem_map] at hr
+    obtain ⟨r0, hr0, rfl⟩ := hr
+    have h0 := h.rows_ok r0 hr0
+    rw [hm]
+    exact ⟨rowInRange_permute h0.1 axes hlt, by
+      show blockCharge a.mods (axes.filterMap fun i => a.legs[i]?) (selectCols axes r0 0) = a.qtotal
+      rw [blockCharge_permute h.legs_ok h0.1 axes hp, h0.2]⟩
+  · show (a.qdata.map (fun r => selectCols axes r 0)).Pairwise (· ≠ ·)
+    rw [List.pairwise_map]
+    have := h.nodup
+    rw [List.pairwise_iff_forall_sublist] at this ⊢
+    intro x y hxy e
+    have hx := h.row_length (hxy.subset (by simp : x ∈ [x, y]))
+    have hy := h.row_length (hxy.subset (by simp : y ∈ [x, y]))
+    exact this hxy (selectCols_inj hp hx hy e)
+
+end TenpyModel.C02
+
+/-- `itranspose` must reset `_qdata_sorted`: permuting the columns destroys the lexicographic order (see the
+counterexample below); with the reset the result is well-formed for every permutation of the axes. -/
+theorem C02_WF_itranspose (a : ArrS) (axes : Option (List Int)) (b : ArrS) (h : a.WF)
+    (hb : a.itranspose axes = some b) : b.WF := by
+  rw [WF_iff] at *
+  unfold ArrS.itranspose at hb
+  cases axes with
+  | none =>
+    simp only [Option.some.injEq] at hb
+    subst hb
+    exact WFP_permuteAxes h _ (List.reverse_perm _)
+  | some ax =>
+    simp only at hb
+    cases hax : ax.mapM a.legIndex with
+    | none => simp [hax] at hb
+    | some axn =>
+      simp only [hax] at hb
+      split at hb
+      · cases hb
+      · rename_i hc
+        split at hb
+        · cases hb; exact h
+        · cases hb
+          simp only [ne_eq, Bool.or_eq_true, decide_eq_true_eq, Bool.not_eq_true', decide_eq_false_iff_not, not_or,
+            Decidable.not_not] at hc
+          apply WFP_permuteAxes h
+          apply perm_range_of_nodup axn a.rank hc.2 hc.1
+          intro i hi
+          obtain ⟨j, _, hj⟩ := mapM_some_mem hax i hi
+          exact legIndex_lt hj
+
+/-- keeping the flag would be wrong: the transposed rows of this sorted, well-formed array are not sorted -/
+theorem C02_itranspose_flag_counterexample :
+    ∃ a : ArrS, a.WF ∧ a.sorted = true ∧ ¬ rowsSorted (a.permuteAxes [1, 0]).qdata = true :=
+  ⟨{ legs := [.plain (Leg.fromQflat [] [[], []] 1), .plain (Leg.fromQflat [] [[], []] 1)], qtotal := [],
+     qdata := [[1, 0], [0, 1]], sorted := true }, by decide⟩
+
+theorem TenpyModel.C02.swap_inj (i j x y : Nat)
+    (h : (if x = i then j else if x = j then i else x) = (if y = i then j else if y = j then i else y)) : x = y := by
+  split at h <;> split at h <;> (try split at h) <;> (try split at h) <;> omega
+
+theorem TenpyModel.C02.swap_lt (i j x n : Nat) (hi : i < n) (hj : j < n) (hx : x < n) :
+    (if x = i then j else if x = j then i else x) < n := by
+  split <;> (try split) <;> omega
+
+/-- `iswapaxes` must reset `_qdata_sorted` as well -/
+theorem C02_WF_iswapaxes (a : ArrS) (i j : Int) (b : ArrS) (h : a.WF) (hb : a.iswapaxes i j = some b) : b.WF := by
+  rw [WF_iff] at *
+  unfold ArrS.iswapaxes at hb
+  cases hi : a.legIndex i with
+  | none => simp [hi] at hb
+  | some i' =>
+    cases hj : a.legIndex j with
+    | none => simp [hi, hj] at hb
+    | some j' =>
+      simp only [hi, hj] at hb
+      split at hb
+      · cases hb; exact h
+      · cases hb
+        have hi' := legIndex_lt hi
+        have hj' := legIndex_lt hj
+        apply WFP_permuteAxes h
+        apply perm_range_of_nodup
+        · unfold List.Nodup
+          rw [List.pairwise_map]
+          refine List.nodup_range.imp ?_
+          intro x y hxy e
+          exact hxy (swap_inj i' j' x y e)
+        · simp
+        · intro k hk
+          obtain ⟨x, hx, rfl⟩ := List.mem_map.mp hk
+          exact swap_lt i' j' x a.rank hi' hj' (List.mem_range.mp hx)
+
+example : (exA.isortQdata.iswapaxes 0 1).map (·.sorted) = some false := by decide
